@@ -226,6 +226,10 @@ func DriverMain(prop, tier, verifDir string) int {
 
 	// verdict
 	known := loadKnown(verifDir)
+	if o := os.Getenv("VERIF_OUT"); o != "" {
+		// runs against another go.sh tree (mutant self-tests) keep their evidence and replay files apart
+		verifDir = o
+	}
 	os.MkdirAll(filepath.Join(verifDir, "replay"), 0o755)
 	seen := map[string]bool{}
 	var lines []string
